@@ -52,6 +52,7 @@ class Agg(object):
         self.violations = []      # [(index, signature, detail, scenario, tape)]
         self.harness_errors = []
         self.cut_short = False
+        self.sig_counts = {}
 
     def add(self, index, res, scenario):
         self.runs += 1
@@ -74,7 +75,9 @@ class Agg(object):
                 and res.nontrivial:
             self.samples.append(res.summary)
         for sig, detail in res.violations:
-            if len(self.violations) < 40:
+            n = self.sig_counts.get(sig, 0)
+            self.sig_counts[sig] = n + 1
+            if n < 2 and len(self.sig_counts) <= 40:
                 self.violations.append((index, sig, detail, scenario,
                                         res.tape))
 
